@@ -65,7 +65,7 @@ impl Check for C11 {
         "C11"
     }
     fn cases(&self, tier: Tier) -> u64 {
-        tier.pick(12_000, 600_000)
+        tier.pick(12_000, 250_000)
     }
     fn run(&self, ctx: &Ctx, idx: u64, rec: &mut Recorder) {
         let mut rng = Rng::for_case(ctx.seed, "C11", idx);
